@@ -7,7 +7,7 @@ W=/tmp/cs-$name
 cd /repo && git worktree remove --force $W 2>/dev/null; git worktree add -q --detach $W HEAD || exit 1
 mkdir -p $W/seed_out && cp -r $src/. $W/seed_out/
 cd $W
-bt() { cmake -G Ninja -S . -B build -DCMAKE_BUILD_TYPE=RelWithDebInfo -DCMAKE_CXX_FLAGS=-Wno-error >/dev/null 2>&1 && cmake --build build -j 16 >/dev/null 2>&1; }
+bt() { cmake -G Ninja -S . -B build -DCMAKE_BUILD_TYPE=RelWithDebInfo -DCMAKE_CXX_FLAGS=-Wno-error $EXTRA_CMAKE >/dev/null 2>&1 && cmake --build build -j 16 >/dev/null 2>&1; }
 bt || { echo "BUILD-FAIL unchanged"; exit 1; }
 ( bash seed_out/run_demo.sh > /tmp/cs-$name.unchanged.log 2>&1 ); rc0=$?
 git apply seed_out/patch.diff || { echo "PATCH DOES NOT APPLY"; cd /repo; git worktree remove --force $W; exit 1; }
